@@ -6,6 +6,7 @@ import (
 	"fmt"
 	"os"
 
+	"evylang.dev/evy/vdrv/c08"
 	"evylang.dev/evy/vdrv/c14"
 	"evylang.dev/evy/vdrv/core"
 )
@@ -14,6 +15,8 @@ func driver(prop string) core.Driver {
 	switch prop {
 	case "C14":
 		return &c14.D{}
+	case "C08":
+		return &c08.D{}
 	}
 	return nil
 }
@@ -38,8 +41,18 @@ func main() {
 	flag.StringVar(&a.Scratch, "scratch", "", "scratch dir (plain copy, binaries)")
 	flag.IntVar(&a.Limit, "limit", 0, "limit the number of items")
 	flag.IntVar(&regen, "regen", -1, "regenerate the base scenario of an item (internal)")
+	observe := flag.String("observe", "", "run a scenario natively and print its observables (plain binary)")
+	repeat := flag.Int("repeat", 1, "repetitions for -observe")
 	flag.Parse()
 	core.ScratchDir = a.Scratch
+	if *observe != "" {
+		sc, err := core.Load(*observe)
+		if err != nil {
+			os.Exit(2)
+		}
+		fmt.Print(c08.Observe(sc, *repeat))
+		os.Exit(0)
+	}
 
 	if a.Replay != "" {
 		sc, err := core.Load(a.Replay)
